@@ -1,5 +1,6 @@
 import Robust.Irc.Inv
 import Robust.Irc.Proofs.Entry
+import Robust.Irc.Proofs.PrivHistB
 /-!
 # C06 — no client line can crash the state machine
 `C06_no_panic`: applying one committed entry to a state satisfying the invariant never panics, for
@@ -63,5 +64,151 @@ theorem C06_client_no_panic (st : St) (e : Entry) (h : GInv st) (he : EntryOk st
 /-- no history of well-formed, conforming entries panics -/
 theorem C06_history_no_panic {es : List Entry} (hw : WfHistory {} es) : ∀ site, runEntries {} es ≠ .panic site :=
   run_no_panic GInv_init hw
+
+/-! ## non-vacuity
+
+Every theorem above that has hypotheses is instantiated on concrete data on which all its hypotheses hold together.
+`Ex.stR` is the state reached from the initial state by the history `Ex.es0` (`Ex.run0`, by evaluation): a Config
+entry, a services link (session 2) with the pseudo-client `ChanServ`, the registered clients alice (chanop of `#c`
+and `#d`) and bob, `ChanServ` on `#c` as well, and a connection (16) that has not chosen a nickname; it satisfies
+`GInv` by `run_preserves` (`Ex.ginvR`).  `Ex.wfB` decides `WfHistory`, the lines of services links included.
+(Services lines whose handler parses a number — `SVSHOLD nick 60`, `TOPIC` — go through `String.toNat?`, which the
+kernel does not evaluate; the histories below avoid them.) -/
+namespace Ex
+local instance (cmd : String) (n : Nat) : Decidable (ParamsOK cmd n) := by unfold ParamsOK; exact inferInstance
+
+/-- `Conforming` as a Boolean, the lines of services links included -/
+def confB (st : St) (e : Entry) : Bool :=
+  !(e.type == 2) || (match AMap.get st.sessions e.session with
+    | some s => !s.server || (match parseMessage e.data with
+        | some m => m.pfx.isSome && decide (ParamsOK (toUpper m.command) m.params.length)
+        | none => true)
+    | none => true)
+
+theorem conf_of_B {st : St} {e : Entry} (h : confB st e = true) : Conforming st e := by
+  intro ht s m hs hsv hm
+  unfold confB at h
+  simpa [ht, hs, hsv, hm] using h
+
+/-- `WfHistory` as a Boolean -/
+def wfB (st : St) : List Entry → Bool
+  | [] => true
+  | e :: es => entryOkB st e && confB st e && (match applyEntry st e with
+    | .ok (st', _) => wfB st' es
+    | _ => true)
+
+theorem wf_of_B : ∀ {es : List Entry} {st : St}, wfB st es = true → WfHistory st es
+  | [], _, _ => trivial
+  | e :: es, st, h => by
+    unfold wfB at h
+    simp only [Bool.and_eq_true] at h
+    refine ⟨entryOk_of_B h.1.1, conf_of_B h.1.2, fun st' out hap => ?_⟩
+    have h2 := h.2
+    rw [hap] at h2
+    exact wf_of_B h2
+
+def entryOk (r : Res (St × List Out)) : Bool :=
+  match r with
+  | .ok _ => true
+  | _ => false
+def mk (ty id : Nat) (sess : Id) (data : String) : Entry :=
+  { type := ty, id := id, session := sess, data := data, unixNano := 0, cmid := id, rev := 0, remoteAddr := "", cfg := none }
+def cfg : Config := { services := ["sekrit"], maxChannels := 2, maxSessions := 6 }
+def eCfg : Entry :=
+  { type := 6, id := 1, session := ⟨0, 0⟩, data := "", unixNano := 0, cmid := 0, rev := 1, remoteAddr := "", cfg := some cfg }
+/-- the configuration; a services link connects and introduces `ChanServ`; alice registers and creates `#c`; bob
+registers and joins; `ChanServ` joins; alice creates `#d`; a further connection is opened -/
+def es0 : List Entry := [
+  eCfg,
+  mk 0 2 ⟨0, 0⟩ "auth-s", mk 2 3 ⟨2, 0⟩ "PASS services=sekrit", mk 2 4 ⟨2, 0⟩ "SERVER services.x 1",
+  mk 2 5 ⟨2, 0⟩ ":services.x NICK ChanServ 1 1 services localhost services.x 0 :Channel Services",
+  mk 0 6 ⟨0, 0⟩ "auth-a", mk 2 7 ⟨6, 0⟩ "NICK alice", mk 2 8 ⟨6, 0⟩ "USER a 0 * :Alice", mk 2 9 ⟨6, 0⟩ "JOIN #c",
+  mk 0 10 ⟨0, 0⟩ "auth-b", mk 2 11 ⟨10, 0⟩ "NICK bob", mk 2 12 ⟨10, 0⟩ "USER b 0 * :Bob", mk 2 13 ⟨10, 0⟩ "JOIN #c",
+  mk 2 14 ⟨2, 0⟩ ":ChanServ JOIN #c", mk 2 15 ⟨6, 0⟩ "JOIN #d",
+  mk 0 16 ⟨0, 0⟩ "auth-d"]
+/-- the pseudo-client's id: the link's id and the FNV hash of the nick -/
+def csId : Id := ⟨2, 893999252474884769⟩
+def linkS : Session := { id := ⟨2, 0⟩, auth := "auth-s", lastActivity := 14, lastNonPing := 14, created := 2, svid := "0", pass := "services=sekrit", server := true, lastClientMessageId := 14, ircPrefix := ⟨"services.x", "", ""⟩ }
+def chanServS : Session := { id := csId, nick := "ChanServ", username := "services", realname := "Channel Services", channels := ["#c"], lastActivity := 5, lastNonPing := 5, created := 5, svid := "0", ircPrefix := ⟨"ChanServ", "services", "robust/0x2"⟩ }
+def aliceS : Session := { id := ⟨6, 0⟩, auth := "auth-a", loggedIn := true, nick := "alice", username := "a", realname := "Alice", channels := ["#c", "#d"], lastActivity := 15, lastNonPing := 15, created := 6, svid := "0", lastClientMessageId := 15, ircPrefix := ⟨"alice", "a", "robust/0x6"⟩ }
+def bobS : Session := { id := ⟨10, 0⟩, auth := "auth-b", loggedIn := true, nick := "bob", username := "b", realname := "Bob", channels := ["#c"], lastActivity := 13, lastNonPing := 13, created := 10, svid := "0", lastClientMessageId := 13, ircPrefix := ⟨"bob", "b", "robust/0xa"⟩ }
+def daveS : Session := { id := ⟨16, 0⟩, auth := "auth-d", lastActivity := 16, lastNonPing := 16, created := 16, svid := "0" }
+/-- the state reached from the initial state by `es0` (`run0` below) -/
+def stR : St :=
+  { sessions := [(⟨2, 0⟩, linkS), (csId, chanServS), (⟨6, 0⟩, aliceS), (⟨10, 0⟩, bobS), (⟨16, 0⟩, daveS)]
+    nicks := [("chanserv", csId), ("alice", ⟨6, 0⟩), ("bob", ⟨10, 0⟩)]
+    channels := [("#c", { name := "#c", nicks := [("alice", { chanop := true }), ("bob", {}), ("chanserv", {})], modes := ['n', 't'] }),
+                 ("#d", { name := "#d", nicks := [("alice", { chanop := true })], modes := ['n', 't'] })]
+    serverSessions := [2]
+    lastProcessed := ⟨6, 0⟩
+    config := { cfg with revision := 1 } }
+theorem run0 : runOk {} es0 = some stR := by decide +kernel
+theorem wf0 : wfB {} es0 = true := by decide +kernel
+/-- `stR` is reachable, hence satisfies the full invariant -/
+theorem ginvR : GInv stR := run_preserves GInv_init (wf_of_B wf0) (runOk_some run0)
+
+def panicSite {α : Type} (r : Res α) : Option String :=
+  match r with
+  | .panic w => some w
+  | _ => none
+theorem stored_client {st : St} {sid : Id} {s0 : Session} (h0 : AMap.get st.sessions sid = some s0) (h1 : s0.server = false) :
+    ∀ s, AMap.get st.sessions sid = some s → s.server = false := fun s h => by
+  rw [h0] at h; cases h; exact h1
+def cR : Ctx := { st := stR, msgid := 20 }
+/-- bob: `KICK #c` (one parameter, `MinParams` is 2) -/
+def eKick : Entry := mk 2 20 ⟨10, 0⟩ "KICK #c"
+def mKick : IrcMsg := ⟨none, "KICK", ["#c"]⟩
+/-- the services link: `:ChanServ KICK #c` -/
+def eSKick : Entry := mk 2 20 ⟨2, 0⟩ ":ChanServ KICK #c"
+def mSKick : IrcMsg := ⟨some ⟨"ChanServ", "", ""⟩, "KICK", ["#c"]⟩
+/-- a conforming services line: `:ChanServ KICK #c bob :out` -/
+def eSKick3 : Entry := mk 2 20 ⟨2, 0⟩ ":ChanServ KICK #c bob :out"
+/-- not conforming: the services `JOIN` without prefix (its `MinParams` is 0, the handler reads `msg.Prefix.Name`) -/
+def eSJoinBad : Entry := mk 2 20 ⟨2, 0⟩ "JOIN #c"
+/-- a client line with missing parameters of every kind -/
+def eOdd : Entry := mk 2 20 ⟨10, 0⟩ "MODE #c +o-v+bk"
+def es1 : List Entry := [
+  eSKick3, mk 2 21 ⟨2, 0⟩ ":ChanServ MODE #c +o ChanServ", mk 2 22 ⟨2, 0⟩ ":ChanServ NOTICE #c :welcome",
+  mk 2 23 ⟨2, 0⟩ ":services.x SVSNICK alice alicia 0", mk 2 24 ⟨2, 0⟩ ":services.x SVSJOIN alicia #e", mk 2 25 ⟨2, 0⟩ ":services.x KILL alicia :bye",
+  mk 2 26 ⟨16, 0⟩ "JOIN #c", mk 2 27 ⟨16, 0⟩ "NICK", mk 2 28 ⟨16, 0⟩ "USER", mk 2 29 ⟨16, 0⟩ ":x", mk 2 30 ⟨16, 0⟩ "",
+  mk 1 31 ⟨16, 0⟩ "bye", mk 2 32 ⟨2, 0⟩ ":services.x QUIT :netsplit"]
+theorem wf1 : wfB stR es1 = true := by decide +kernel
+theorem wf_append : ∀ {es : List Entry} {st st' : St} {es' : List Entry}, WfHistory st es → runEntries st es = .ok st' →
+    WfHistory st' es' → WfHistory st (es ++ es')
+  | [], _, _, _, _, hr, h' => by cases hr; exact h'
+  | e :: es, st, st', es', h, hr, h' => by
+    refine ⟨h.1, h.2.1, fun st1 out hap => ?_⟩
+    unfold runEntries at hr
+    rw [hap] at hr
+    exact wf_append (h.2.2 st1 out hap) hr h'
+/-- the whole history from the initial state is well-formed -/
+theorem wf01 : WfHistory {} (es0 ++ es1) := wf_append (wf_of_B wf0) (runOk_some run0) (wf_of_B wf1)
+end Ex
+open Ex
+
+/-- `C06_minparams_gate` for a registered client (bob, `KICK #c`: one parameter, the gate is 2) … -/
+example : processMessage cR eKick (some mKick) =
+    .ok (sendUser cR ⟨10, 0⟩ (srv cR "461" ["bob", "KICK", "Not enough parameters"])) :=
+  C06_minparams_gate cR eKick mKick bobS "cmdKick" 2 rfl (Or.inl rfl) (Or.inl rfl) (by decide +kernel) (by decide)
+/-- … and for the services link (`:ChanServ KICK #c`, looked up as `server_KICK`) -/
+example : processMessage cR eSKick (some mSKick) =
+    .ok (sendUser cR ⟨2, 0⟩ (srv cR "461" ["", "KICK", "Not enough parameters"])) :=
+  C06_minparams_gate cR eSKick mSKick linkS "cmdServerKick" 2 rfl (Or.inr rfl) (Or.inl rfl) (by decide +kernel) (by decide)
+
+/-- `C06_no_panic` on a line of the services link (so that `Conforming` is not satisfied trivially): the entry is
+conforming (by evaluation of `confB`), and it does apply -/
+example : ∀ site, applyEntry stR eSKick3 ≠ .panic site :=
+  C06_no_panic stR eSKick3 ginvR (entryOk_of_B (by decide +kernel)) (conf_of_B (by decide +kernel))
+example : entryOk (applyEntry stR eSKick3) = true := by decide +kernel
+/-- … and `Conforming` is needed: the services `JOIN` without prefix is not conforming and does panic in `stR` -/
+example : confB stR eSJoinBad = false ∧ panicSite (applyEntry stR eSJoinBad) = some "msg.Prefix is nil" := by decide +kernel
+/-- `C06_client_no_panic`: bob's session is stored and is not a services link -/
+example : ∀ site, applyEntry stR eOdd ≠ .panic site :=
+  C06_client_no_panic stR eOdd ginvR (entryOk_of_B (by decide +kernel))
+    (stored_client (s0 := bobS) (by decide +kernel) rfl)
+/-- `C06_history_no_panic` on the 29 entries of `es0 ++ es1` (services `KICK`, `MODE`, `NOTICE`, `SVSNICK`, `SVSJOIN`,
+`KILL`, `QUIT`; an unregistered connection sending `JOIN`, `NICK` and `USER` without parameters, a line that is only a
+prefix, an empty line; a DeleteSession entry) -/
+example : ∀ site, runEntries {} (es0 ++ es1) ≠ .panic site := C06_history_no_panic wf01
 
 end Robust.Props.C06
